@@ -83,6 +83,8 @@ pub struct DumpSpec {
     pub read_bytes: bool,
     /// hard cap on entries / contents walked (damaged counts may be huge)
     pub cap: u32,
+    /// number of indexes the directory holds (probed by position)
+    pub index_count: usize,
 }
 
 impl DumpSpec {
@@ -92,7 +94,12 @@ impl DumpSpec {
             prop_names.push("x");
             prop_names.push("tag");
         }
-        let mut index_names: Vec<String> = m.indexes.iter().map(|(n, _, _)| n.clone()).collect();
+        let mut index_names: Vec<String> = vec![];
+        for (n, _, _) in &m.indexes {
+            if !index_names.contains(n) {
+                index_names.push(n.clone());
+            }
+        }
         index_names.push("no-such-index".into());
         Self {
             index_names,
@@ -101,6 +108,7 @@ impl DumpSpec {
             beyond: 1,
             read_bytes: true,
             cap: (m.contents.len() as u32 + 4) * 4,
+            index_count: m.indexes.len(),
         }
     }
 }
@@ -351,7 +359,7 @@ pub fn dump_opened(container: &jbk::reader::Container, spec: &DumpSpec, out: &mu
     // the directory pack's own free data, and its indexes by position (the same objects as by name)
     let dp = container.get_directory_pack();
     out.push("dirpack/free", Leaf::Val(format!("{:?}", dp.get_free_data())));
-    for i in 0..spec.index_names.len().saturating_sub(1) {
+    for i in 0..spec.index_count {
         out.push(
             format!("dirpack/index_at[{i}]"),
             match dp.get_index((i as u32).into()) {
@@ -532,7 +540,7 @@ pub fn check_against_model(d: &Dump, m: &crate::gen::Model, contents_readable: b
     };
     expect("open".into(), Leaf::Val("ok".into()));
     expect("check".into(), Leaf::Val("true".into()));
-    expect("pack_count".into(), Leaf::Val((m.pack_ids().len() as u64 + 1).to_string()));
+    expect("pack_count".into(), Leaf::Val((m.pack_ids().len() as u64 + 1 + m.extra_listed as u64).to_string()));
     for p in 1..=m.n_packs {
         if m.is_absent(p) {
             // an id the manifest does not list answers "no such pack"
@@ -565,7 +573,12 @@ pub fn check_against_model(d: &Dump, m: &crate::gen::Model, contents_readable: b
             Leaf::Bytes(c.bytes.len() as u64, digest_bytes(&c.bytes)),
         );
     }
+    let mut seen_names: Vec<&str> = vec![];
     for (name, offset, count) in &m.indexes {
+        if seen_names.contains(&name.as_str()) {
+            continue;
+        }
+        seen_names.push(name.as_str());
         expect(format!("index[{name}]/count"), Leaf::Val(count.to_string()));
         expect(format!("index[{name}]/offset"), Leaf::Val(offset.to_string()));
         for i in 0..*count {
